@@ -31,7 +31,7 @@ SPEC = dict(
              'HashMap.set_int_key is the hand model setIntKey (c09_src_set_int_key); HashMap.set, specialised per key form - int, bytes (big-endian unsigned), 0/1 string (int(key, 2), ValueError on the empty string), Address (store_address .. load_uint(267)), '
              'text with hash_key (sha256), key_serializer - is normKey followed by setIntKey (c09_src_set_forms, c09_src_set_key_serializer); HashMap.serialize is the model serialize (None for the empty map, c09_src_serialize); HashMap.parse / from_cell(..).map / '
              'Slice.load_dict / preload_dict / load_hashmap with the default deserialisers are hashMapParse / fromCell / loadDict, load_dict consuming the presence bit and one reference, preload_dict nothing (c09_src_parse_api); so the whole API round trip holds with '
-             'every method the regenerated one (c09_src_roundtrip_api). Still hand model + correspondence: non-default key / value deserialisers, with_*_values, Builder.store_dict, load_hashmap_aug_e, and the Builder / Slice primitives under store_address / load_uint (C05 / C06).',
+             'every method the regenerated one (c09_src_roundtrip_api). Still hand model + correspondence: non-default key / value deserialisers, with_*_values, Builder.store_dict, and the Builder / Slice primitives under store_address / load_uint (C05 / C06).',
         level_note='Trusted: Lean kernel (propext, Classical.choice, Quot.sound); Model/Hashmap.lean as a hand transcription of '
                    'hashmap/{hashmap,utils,parse}.py (tied by sampled differential correspondence: exhaustive widths 1-3 incl. all insertion '
                    'orders in the thorough tier, all 65535 width-4 key sets thorough / sampled quick, pattern key sets up to width 1023, all key '
